@@ -187,7 +187,8 @@ type cluster struct {
 	killFold        bool // the next coalesce: the sync agent's sfold child dies from a signal
 	killXfer        bool // the next snapshot-file transfer: the sender dies from a signal after the receiver sized the file (real agent only)
 	ssyncFaultArmed bool
-	restartAgent    bool // armed: the source's sync agent dies with the next snapshot-file sender and is restarted
+	histTag         string // names the pre-history this execution has gone through; appended to violation signatures
+	restartAgent    bool   // armed: the source's sync agent dies with the next snapshot-file sender and is restarted
 	restartingAgent bool
 	agentOutage     map[int]int    // per node: 1 = the next status poll falls into the outage, 2 = the new agent answers
 	agentPorts      []int          // ports of the receivers the real agents started in this execution
@@ -571,6 +572,9 @@ func (f factory) VerifyReplicaAlive(address string) bool {
 func (cl *cluster) violate(oracle, sig, detail string) {
 	if cl.cfg.SigTag != "" {
 		sig += "@" + cl.cfg.SigTag
+	}
+	if cl.histTag != "" {
+		sig += "@" + cl.histTag
 	}
 	for _, v := range cl.viol {
 		if v.Oracle == oracle && v.Signature == sig {
